@@ -203,6 +203,23 @@ func verifRoot() string {
 	return "/verif"
 }
 
+// outRoot is where evidence and replay files go: /verif for the registered
+// commands, a side directory when the checks are pointed at a scratch worktree.
+func outRoot() string {
+	if v := os.Getenv("VERIF_OUT"); v != "" {
+		return v
+	}
+	return verifRoot()
+}
+
+// repoRoot is the repository the harness was built against (for its data files).
+func repoRoot() string {
+	if v := os.Getenv("VERIF_REPO"); v != "" {
+		return v
+	}
+	return "/repo"
+}
+
 func main() {
 	if len(os.Args) < 2 {
 		fmt.Fprintln(os.Stderr, "usage: vcheck run|worker|replay ...")
@@ -704,7 +721,7 @@ func conclude(a *Agg, wall float64) int {
 	}
 	sort.Strings(order)
 	newViol, knownSeen := 0, 0
-	os.MkdirAll(filepath.Join(verifRoot(), "replays"), 0o755)
+	os.MkdirAll(filepath.Join(outRoot(), "replays"), 0o755)
 	for _, class := range order {
 		g := byClass[class]
 		if f := isKnown(class); f != nil {
@@ -714,7 +731,7 @@ func conclude(a *Agg, wall float64) int {
 		}
 		newViol += g.n
 		name := fmt.Sprintf("%s-%s-seed%d-case%d-%s.json", p.ID, a.Tier, a.Seed, g.first.Case, sanitize(class))
-		path := filepath.Join(verifRoot(), "replays", name)
+		path := filepath.Join(outRoot(), "replays", name)
 		rp := Replay{Property: p.ID, Tier: a.Tier, Seed: a.Seed, Case: g.first.Case, Class: class, Msg: g.first.V.Msg,
 			Detail: g.first.V.Detail, How: "./check " + p.ID + " --replay " + path}
 		b, _ := json.MarshalIndent(rp, "", " ")
@@ -776,9 +793,9 @@ func conclude(a *Agg, wall float64) int {
 		code = 1
 		ev["verdict"] = "violated"
 	}
-	os.MkdirAll(filepath.Join(verifRoot(), "evidence"), 0o755)
+	os.MkdirAll(filepath.Join(outRoot(), "evidence"), 0o755)
 	b, _ := json.MarshalIndent(ev, "", " ")
-	os.WriteFile(filepath.Join(verifRoot(), "evidence", p.ID+".json"), b, 0o644)
+	os.WriteFile(filepath.Join(outRoot(), "evidence", p.ID+".json"), b, 0o644)
 	for i, r := range a.Inconclusive {
 		if i >= 5 {
 			break
